@@ -10,7 +10,7 @@ TV   Grammar_Trace: TLC replays each derivation with the specification, recomput
      expectation and compares with the real tree: accepted; every tracked construct exactly once
      under its Annex A node kind with its identifier; every identifier/keyword exactly one leaf.
 """
-import random, json
+import random, json, zlib
 import vlib, svgen
 
 STARTS = ["module_ansi", "module_nonansi", "interface_decl", "program_decl", "package_decl", "class_decl", "stmt", "expr", "module_item",
@@ -56,7 +56,7 @@ def class_sweep(rng):
         for k in range(1, len(alts) + 1):
             for ctx in range(3):
                 hit = [False]
-                r2 = random.Random(hash((nt, k, ctx)) & 0xffffff)
+                r2 = random.Random(zlib.crc32(("%s/%d/%d" % (nt, k, ctx)).encode()))
 
                 def choose(cur, allowed, b, alts_, nt=nt, k=k, hit=hit, r2=r2):
                     if cur == nt and not hit[0] and k in allowed:
@@ -113,21 +113,41 @@ def run(tier, seed):
         c["note"] = note
         cases.append(c)
     vlib.log("C02: %d sentences (%d exhaustive, %d sweep, rest seeded)" % (len(cases), nexh, len(sweep)))
-    hcases = [{"id": c["id"], "calls": [{"fn": "two_step_sv_str", "path": "t.sv", "text": c["text"], "origins_of_leaves": True}]} for c in cases]
-    results = vlib.run_cases(hcases, tag="c02", limit_ms=60000)
     tracked = set(svgen.grammar()["tracked"])
-    recs = []
+
+    def execute(cs, unbounded=False):
+        hcases = []
+        for c in cs:
+            call = {"fn": "two_step_sv_str", "path": "t.sv", "text": c["text"], "origins_of_leaves": True}
+            if unbounded:
+                call["memo_cap"] = None
+            hcases.append({"id": c["id"], "calls": [call]})
+        results = vlib.run_cases(hcases, tag="c02", limit_ms=60000)
+        out = []
+        for c, res in zip(cs, results):
+            obs = svgen.observe(res["results"][0], tracked)
+            # the host's own constructs are removed from the observed pairs (known wrapper)
+            for hp in c["host"]:
+                if hp in obs["pairs"]:
+                    obs["pairs"].remove(hp)
+            out.append({"id": c["id"], "start": c["start"], "budget": c["budget"], "choices": c["choices"], "toks": c["toks"], "offs": c["offs"], "obs": obs})
+        return out
+    recs = execute(cases)
     used = set()
-    for c, res in zip(cases, results):
-        obs = svgen.observe(res["results"][0], tracked)
-        # the host's own constructs are removed from the observed pairs (known wrapper)
-        for hp in c["host"]:
-            if hp in obs["pairs"]:
-                obs["pairs"].remove(hp)
-        recs.append({"id": c["id"], "start": c["start"], "budget": c["budget"], "choices": c["choices"], "toks": c["toks"], "offs": c["offs"], "obs": obs})
     bad, stats = vlib.tlc_validate("Grammar_Trace.tla", "Grammar_Trace.cfg", recs, tag="c02", shards=8)
     v.add_tv("Grammar_Trace", stats, len(recs))
     by_id = {c["id"]: c for c in cases}
+    if bad:
+        # cross-property rule (DESIGN.md 2.4): an unexpected parser result is re-run once with an unbounded memo
+        # table; if the discrepancy disappears it is a manifestation of the open C17 findings (D15), not of C02
+        again = execute([by_id[rid] for rid in bad], unbounded=True)
+        bad2, stats2 = vlib.tlc_validate("Grammar_Trace.tla", "Grammar_Trace.cfg", again, tag="c02u", shards=2)
+        v.add_tv("Grammar_Trace[unbounded memo]", stats2, len(again))
+        for rid in list(bad):
+            if rid not in bad2:
+                v.known_finding("D15", "parser result at the production memo capacity differs from the unbounded-memo result (memoised guarded failure)",
+                                by_id[rid]["text"][:200], ["C17"])
+                del bad[rid]
     for rid, reasons in bad.items():
         v.violation("%s sentence %r: %s" % (by_id[rid]["note"], by_id[rid]["text"][:300], "; ".join(reasons)[:500]),
                     {"text": by_id[rid]["text"], "start": by_id[rid]["start"], "choices": by_id[rid]["choices"]})
